@@ -188,7 +188,7 @@ def ternary_scenario(alpha_kind, thr_kind, shape, cls="ternary"):
     if thr_kind == "sym":
       t = z3.Real("threshold")
       s.vars["threshold"] = t
-      ip.assume(t > 0)
+      ip.assume(t >= 0)    # 0 is a legal explicit threshold (seed c04-3 treated it as unset)
       kw["threshold"] = SNum(t, "float")
     q = ip.call(Q.qcls(ip, cls), [], kw)
     x = Q.tensor("x", shape=shape)
